@@ -898,6 +898,10 @@ class Fxp():
             if val_dtype == object:       
                 # convert each element to int
                 new_val = np.array(list(map(int, new_val.flatten())), dtype=object).reshape(new_val.shape).astype(val_dtype)
+
+                if self.n_word < _n_word_max_:
+                    # values are already inside the word limits: they are stored as 64 bits integers, as usual
+                    new_val = new_val.astype(np.int64 if self.signed else np.uint64)
             
             if index is not None:
                 self.val[index] = new_val
